@@ -260,6 +260,7 @@ def judge_dominance(rec, rnd, tmp):
         level = level[:-2]
     if level.startswith('single-kind'):
         txn['source'] = txn.get('source') or 'Amex'
+        txn['amount'] = abs(txn['amount']) or 5.0          # every listed constraint is true of the probe transaction
     txn['date'] = txn.get('date') or world.DATES[0]
     if not txn.get('field'):
         txn['field'] = {'memo': 'm', 'code': 'c'}
